@@ -262,14 +262,17 @@ class Type2Tag(Tag):
                 tag_memory[offset] = 0xFE
             tag_memory.synchronize()
 
-            # Write the ndef message tlv length.
+            # Write the ndef message tlv length. The three byte length
+            # format becomes valid with the 0xFF marker, thus if the
+            # length field spans two pages the marker page must be
+            # written last (pages are written in descending order).
             offset = self._ndef_tlv_offset
             if len(data) < 255:
                 tag_memory[offset+1] = len(data)
             else:
                 tag_memory[offset+1] = 0xFF
                 tag_memory[offset+2:offset+4] = pack(">H", len(data))
-            tag_memory.synchronize()
+            tag_memory.synchronize(reverse=True)
 
     #
     # Type2Tag methods and attributes
@@ -669,19 +672,19 @@ class Type2TagMemoryReader(object):
             self._data_in_cache[index:] = data
             index += 16
 
-    def _write_to_tag(self, stop):
-        index = 0
-        while index < stop:
+    def _write_to_tag(self, stop, reverse=False):
+        pages = range(0, stop, 4)
+        for index in (reversed(pages) if reverse else pages):
             data = self._data_in_cache[index:index+4]
             if data != self._data_from_tag[index:index+4]:
                 self._tag.sector_select(index >> 10)
                 self._tag.write(index >> 2, data)
                 self._data_from_tag[index:index+4] = data
-            index += 4
 
-    def synchronize(self):
-        """Write pages that contain modified data back to tag memory."""
-        self._write_to_tag(stop=len(self))
+    def synchronize(self, reverse=False):
+        """Write pages that contain modified data back to tag memory,
+        in ascending or, if *reverse* is True, descending order."""
+        self._write_to_tag(stop=len(self), reverse=reverse)
 
 
 def activate(clf, target):
